@@ -392,9 +392,17 @@ func (k *Keeper) ApplyMessageWithConfig(ctx sdk.Context,
 		// take over the nonce management from evm:
 		// - reset sender's nonce to msg.Nonce() before calling evm.
 		// - increase sender's nonce by one no matter the result.
+		// the ante handler has already advanced the nonce once for every Ethereum message of the
+		// transaction: a batch [create(n), call(n+1)] arrives here with nonce n+2, which must not
+		// fall back to n+1 (the second, already executed, transaction could be replayed)
+		nonceBefore := stateDB.GetNonce(sender.Address())
 		stateDB.SetNonce(sender.Address(), msg.Nonce())
 		ret, _, leftoverGas, vmErr = evm.Create(sender, msg.Data(), leftoverGas, msg.Value())
-		stateDB.SetNonce(sender.Address(), msg.Nonce()+1)
+		if nonceAfter := msg.Nonce() + 1; nonceBefore > nonceAfter {
+			stateDB.SetNonce(sender.Address(), nonceBefore)
+		} else {
+			stateDB.SetNonce(sender.Address(), nonceAfter)
+		}
 	} else {
 		ret, leftoverGas, vmErr = evm.Call(sender, *msg.To(), msg.Data(), leftoverGas, msg.Value())
 	}
